@@ -10,7 +10,7 @@ LEVEL = 'exploration'
 RULE = ('Random envelope skeletons: 1-3 interchanges x 0-3 groups x 0-3 sets, control numbers from a pool of three (forces reuse), declared '
         'counts in {true, +-1, 0, non-numeric, empty, element absent}, trailer ids right/wrong, random body segments, HL sequences with '
         'right/wrong/non-numeric numbers and parents, CLM/LX runs; truncated at a random point in 25% of cases; then 0-3 structural mutations '
-        '(delete/duplicate/swap/insert/retag of header and trailer segments). vlib/ref_envelope.recount decides proper nesting and the exact '
+        '(delete/duplicate/swap/insert/retag of header and trailer segments); every twentieth input is an envelope soup (header, trailer and body segments in arbitrary order behind a well-formed ISA). vlib/ref_envelope.recount decides proper nesting and the exact '
         '(segment index, level, code) multiset; the real X12Reader (check_837_lx on) is iterated with pop_errors() after every segment and '
         'after cleanup(). Properly nested: multisets must be equal (HL parent three-valued). Otherwise: >=1 envelope error and no exception. '
         'non-trivial = distinct (envelope shape, expected discrepancy set) signatures with at least one expected discrepancy or improper nesting.')
@@ -20,7 +20,7 @@ ASSUMPTIONS = ['counts and HL/LX numbers that Python int() accepts but are not c
                'every ISA generated has 16 elements (a shorter ISA is a documented refusal, C07)']
 REQUIRED_COUNTERS = ['proper', 'improper', 'exp:isa:025', 'exp:gs:6', 'exp:st:23', 'exp:st:3', 'exp:st:4', 'exp:gs:4', 'exp:gs:5', 'exp:isa:001',
                      'exp:isa:021', 'exp:eof:st:2', 'exp:eof:gs:3', 'exp:eof:isa:023', 'exp:seg:HL1', 'exp:seg:HL2', 'exp:seg:LX',
-                     'proper-clean', 'segments-fed']
+                     'proper-clean', 'segments-fed', 'envelope-soups']
 MIN_CASES = {'quick': 15000, 'thorough': 2000000}
 
 CTL = {'isa': ['000000001', '000000002', '000000003'], 'gs': ['1', '2', '3'], 'st': ['0001', '0002', '0003']}
@@ -246,6 +246,13 @@ def run(ctx):
         elif r < 0.6:
             segs, muts = mutate(rng, segs)
             meta['mutations'] = muts
+        if k % 20 == 19:
+            # envelope soup: header, trailer and body segments in arbitrary order behind a well-formed ISA (mostly improper nesting; the proper ones are judged exactly)
+            from vlib import mutate as M
+            text = M.envelope_soup(rng)
+            segs = [(l.split('*')[0], l.split('*')[1:]) for l in text.split('~\n') if l]
+            meta = {'gen': ['c04', ctx.shard, k], 'mutations': ['envelope-soup'], 'truncated_at': None}
+            ctx.count('envelope-soups')
         s = judge(ctx, segs, meta)
         if s:
             sigs.add('%08x' % zlib.crc32(s.encode()))
